@@ -298,6 +298,16 @@ def _handle_schema_default_to_code(params_list, schema):
         params_list.append(("default", default_val))
 
 
+def _docstring_text(description):
+    """escape what would end or alter a triple-quoted docstring"""
+    return (
+        str(description)
+        .replace("\\", "\\\\")
+        .replace('"""', '\\"\\"\\"')
+        .replace("\r", "\\r")
+    )
+
+
 @default_factories
 def schema_to_struct_code(
     struct_name, schema, definitions_schema, additional_fields=list
@@ -329,7 +339,7 @@ def schema_to_struct_code(
     """
     body = [f"class {struct_name}(Structure):"]
     body += (
-        [f'    """\n    {schema.get("description")}\n    """\n']
+        [f'    """\n    {_docstring_text(schema.get("description"))}\n    """\n']
         if "description" in schema
         else []
     )
